@@ -42,6 +42,11 @@ def reOp2 (x y : Char) (s : List Char) : Option (Char × List Char) :=
   | c :: t => if c = x || c = y then some (c, t) else none
   | [] => none
 
+/-- `[-+]?` at the start of `r`: the sign taken (if any) and the rest. -/
+def optSign : List Char → List Char × List Char
+  | c :: t => if c = '-' || c = '+' then ([c], t) else ([], c :: t)
+  | [] => ([], [])
+
 /-- `(?:[eE][-+]?[0-9]+)?` at the start of `r`: matched text (empty if the group does not match) and rest.
 The sign is optional-greedy; if the sign is taken and no digit follows, retrying without the sign
 fails too (a sign is not a digit). -/
@@ -49,12 +54,9 @@ def reExponent (r : List Char) : List Char × List Char :=
   match r with
   | e :: r1 =>
     if e = 'e' || e = 'E' then
-      let (sgn, r2) : List Char × List Char :=
-        match r1 with
-        | c :: t => if c = '-' || c = '+' then ([c], t) else ([], r1)
-        | [] => ([], r1)
-      let d := r2.takeWhile isDigit
-      if d.isEmpty then ([], r) else (e :: (sgn ++ d), r2.dropWhile isDigit)
+      let p := optSign r1
+      let d := p.2.takeWhile isDigit
+      if d.isEmpty then ([], r) else (e :: (p.1 ++ d), p.2.dropWhile isDigit)
     else ([], r)
   | [] => ([], r)
 
@@ -333,5 +335,24 @@ def floatOps : FloatOps Float where
   exp := Float.exp
   ln := Float.log
   sqrt := Float.sqrt
+
+end Q1t.Expr
+
+namespace Q1t.Expr
+
+/-- The pattern strings this model was written for, per parsing function, in source order; compared
+with the strings re-extracted from `src/expression.rs` (`Q1t.Gen.exprPatterns`) in `Props/C14.lean`. -/
+def modelledPatterns : List (String × List String) := [
+  ("parse_real_literal", ["^\\s*((?:[0-9]+\\.[0-9]*|\\.[0-9]+)(?:[eE][-+]?[0-9]+)?)", "^\\s*([1-9][0-9]*|0)", "^\\s*pi"]),
+  ("parse_parenthesized_expression", ["^\\s*\\(", "^\\s*\\)"]),
+  ("parse_function_expression", ["^\\s*(sin|cos|tan|exp|ln|sqrt)\\s*\\(", "^\\s*\\)"]),
+  ("parse_power_expression", ["^\\s*\\^"]),
+  ("parse_negative_expression", ["^\\s*\\-"]),
+  ("parse_product_expression", ["^\\s*([*/])"]),
+  ("parse_sum_expression", ["^\\s*([-+])"])]
+
+/-- The `match &**fname` arms of `eval_with_parameters` as modelled in `evalWith`. -/
+def modelledFunctionArms : List (String × String) :=
+  [("sin", "sin"), ("cos", "cos"), ("tan", "tan"), ("exp", "exp"), ("ln", "ln"), ("sqrt", "sqrt")]
 
 end Q1t.Expr
